@@ -76,13 +76,32 @@ Section Proofs2.
     - rewrite Hv. reflexivity.
   Qed.
 
-  Theorem check_clean_implies_restorable_sel fuel sel :
+  (* without duplicate keys: no assumption on the hash at all *)
+  Theorem check_clean_implies_restorable_nodup fuel sel :
     check B hash blen parse st fuel = Some [] ->
     nodup_keys B st = true -> sel_valid B st sel ->
     forall r, In r (st_roots st) -> correct sel true fuel r = Some true.
   Proof.
     intros Hc Hn Hv r Hr. rewrite (correct_ext sel lookup (nodup_sel sel Hn Hv)).
     apply check_clean_implies_restorable_lemma; assumption.
+  Qed.
+
+  Lemma sel_valid_ok sel : sel_valid B st sel -> sel_ok B st sel.
+  Proof.
+    intros Hv t i. specialize (Hv t i). unfold rcandidates in Hv. rewrite rentries_eq in Hv. exact Hv.
+  Qed.
+
+  (* with duplicate keys: every copy of every needed blob has been read and verified (read_data reads
+     every pack holding a copy), so whichever copy restore's index answers with is right; two
+     authentic copies of one tree are the same tree by collision-freedom *)
+  Theorem check_clean_implies_restorable_sel fuel sel :
+    (forall b b', hash b = hash b' -> b = b') ->
+    check B hash blen parse st fuel = Some [] ->
+    sel_valid B st sel ->
+    forall r, In r (st_roots st) -> correct sel true fuel r = Some true.
+  Proof.
+    intros Hinj Hc Hv. apply check_clean_implies_restorable_gen; [apply sel_valid_ok, Hv| |exact Hc].
+    intros i d d' _ _ H1 H2. apply Hinj. congruence.
   Qed.
 
   (* packs_to_read_sufficient: the walk found nothing ==> every index key restore fetches below a
@@ -153,6 +172,19 @@ Section Proofs2.
           exists d, read_blob B blen st pid b = Some d /\ hash d = ib_id b.
   Proof.
     intro Hc. destruct (check_clean_verified B hash blen parse st fuel Hc) as [_ [used [H1 H2]]].
+    exists used. split; [assumption|]. intros pid Hp. apply kverified_verified. apply H2, Hp.
+  Qed.
+
+  (* ... and every OTHER copy of each of their blobs, in whatever pack of the index, as well *)
+  Theorem all_copies_verified_lemma fuel :
+    check B hash blen parse st fuel = Some [] ->
+    exists used, check_trees B blen parse st fuel = Some ([], used) /\
+      forall pid, In pid used ->
+        forall t b, In (t, pid, b) entries ->
+          forall p' b', In (t, p', b') entries -> ib_id b' = ib_id b ->
+            exists d, read_blob B blen st p' b' = Some d /\ hash d = ib_id b'.
+  Proof.
+    intro Hc. destruct (check_clean_verified B hash blen parse st fuel Hc) as [_ [used [H1 H2]]].
     exists used. split; [assumption|]. exact H2.
   Qed.
 
@@ -202,7 +234,7 @@ Section Proofs2.
   Lemma snap_name_reported fuel :
     st_snap_names_ok st = false -> check B hash blen parse st fuel <> Some [].
   Proof.
-    intros Hs H. unfold check in H. destruct (negb (st_meta_ok st)); [discriminate|].
+    intros Hs H. unfold check, check_with in H. destruct (negb (st_meta_ok st)); [discriminate|].
     destruct (negb (st_index_ok st) && Extracted.x_unreadable_index_aborts_check); [discriminate|].
     destruct (check_trees B blen parse st fuel) as [[et used]|]; [|discriminate].
     rewrite Hs in H. simpl in H. discriminate.
@@ -213,7 +245,7 @@ Section Proofs2.
     check B hash blen parse st fuel = Some [] ->
     st_meta_ok st = true /\ st_index_ok st = true /\ restore_opens B st = true.
   Proof.
-    unfold check, restore_opens. destruct (st_meta_ok st); simpl; [|discriminate].
+    unfold check, check_with, restore_opens. destruct (st_meta_ok st); simpl; [|discriminate].
     destruct (st_index_ok st); simpl; [auto|].
     unfold Extracted.x_unreadable_index_aborts_check. discriminate.
   Qed.
